@@ -6,6 +6,7 @@ import Driver.Proto
 import Beeb.Model.Catalog
 import Beeb.Spec.Info
 import Beeb.Model.Main
+import Beeb.Model.Basic
 import Std.Data.HashMap
 
 open Beeb Driver
@@ -46,6 +47,8 @@ def sectorsOfByteArray (b : ByteArray) : Array Sector := Id.run do
 
 structure DState where
   files : List (Bytes × HostFile) := []
+  bfiles : List (Bytes × Bytes) := []
+  bstdin : Bytes := []
 
 def hostFs (st : DState) : HostFs := fun p =>
   match st.files.find? (fun e => e.1 == p) with
@@ -71,11 +74,33 @@ def opMain (st : DState) (args : List String) : String :=
     | some av => showRun (dfsMain (hostFs st) (nd == "1") (if cols == "-" then none else cols.toNat?) av)
   | _ => "bad-op"
 
+def bytesOfByteArray (b : ByteArray) : Bytes := Id.run do
+  let mut out : List Nat := []
+  for i in [0:b.size] do
+    out := (b.get! (b.size - 1 - i)).toNat :: out
+  return out
+
+def showBRun (r : Beeb.Basic.Run) : String :=
+  match r.unmodelled with
+  | some w => s!"unmodelled {w}"
+  | none =>
+    let crash := match r.crash with | some s => hex (strBytes s) | none => "-"
+    s!"exit={r.exit} err={showBool r.err} out={hex r.out} files=- crash={crash}"
+
+/-- `bmain <argv as hex words…>` : bbcbasic_to_text on the registered files / stdin -/
+def opBMain (st : DState) (args : List String) : String :=
+  match (args.map unhex).foldr (fun a acc => match a, acc with | some x, some l => some (x :: l) | _, _ => none) (some []) with
+  | none => "bad-op"
+  | some av =>
+    showBRun (Beeb.Basic.basicMain Beeb.Gen.tokTable Beeb.Gen.dialectOfName
+      (fun p => (st.bfiles.find? (fun e => e.1 == p)).map (·.2)) st.bstdin av)
+
 def dispatch (st : DState) (line : String) : String :=
   match line.trimAscii.toString.splitOn " " with
   | "infoline" :: args => opInfoLine args
   | "fields" :: args => opFields args
   | "main" :: args => opMain st args
+  | "bmain" :: args => opBMain st args
   | _ => "bad-op"
 
 /-- stateful ops: `file <hexpath> raw|gzbad|missing <host path of (inflated) content>`, `clearfiles` -/
@@ -112,7 +137,18 @@ partial def loop (h : IO.FS.Stream) (out : IO.FS.Stream) (st : DState) : IO Unit
       out.putStrLn "ok"
       loop h out { st with files := (p, HostFile.sparse n tbl) :: st.files.filter (fun e => e.1 != p) }
     | _, _ => out.putStrLn "bad-op"; loop h out st
-  | ["clearfiles"] => out.putStrLn "ok"; loop h out { st with files := [] }
+  | ["bfile", hp, path] =>
+    match unhex hp with
+    | none => out.putStrLn "bad-op"; loop h out st
+    | some p =>
+      let b ← IO.FS.readBinFile path
+      out.putStrLn "ok"
+      loop h out { st with bfiles := (p, bytesOfByteArray b) :: st.bfiles.filter (fun e => e.1 != p) }
+  | ["bstdin", path] =>
+    let b ← (if path == "-" then pure ByteArray.empty else IO.FS.readBinFile path)
+    out.putStrLn "ok"
+    loop h out { st with bstdin := bytesOfByteArray b }
+  | ["clearfiles"] => out.putStrLn "ok"; loop h out { st with files := [], bfiles := [], bstdin := [] }
   | _ =>
     out.putStrLn (dispatch st line)
     loop h out st
